@@ -295,7 +295,7 @@ class C19(Sim):
     FAULT_KINDS = ["prng_handover", "reject"]
     PROBES = ["radius<1", "radius>1", "grid_nonperfect_power", "grid_perfect_power", "box_dim>=4", "point_cloud_return",
               "normals_requested", "single_edge_polyline", "single_face_surface", "multi_component_polyline", "n1!=n2", "n1==n2",
-              "chi2_test_run", "chi2_polyline", "chi2_surface", "caller_edits_returned_value", "ctrl_point_replaced", "t_out_of_range", "t_endpoint", "degree0", "patch_nonsquare_net",
+              "chi2_test_run", "chi2_polyline", "chi2_surface", "many_small_draws", "caller_edits_returned_value", "ctrl_point_replaced", "t_out_of_range", "t_endpoint", "degree0", "patch_nonsquare_net",
               "shared_stream_run", "large_centre", "measured_then_deformed", "integer_control_net", "zero_area_face"]
     QUICK_RUNS = 3000
     THOROUGH_RUNS = 300000
@@ -367,6 +367,9 @@ class C19(Sim):
                 world["surfaces"].append(sf)
                 chi2 = {"kind": "surface", "w": len(world["surfaces"]) - 1}
             chi2["target"] = rng.randint(CHI2_MIN_DRAWS, 7000)
+            if rng.chance(0.3):
+                # the same share, collected from MANY SMALL draws (1-3 points per call): "over many draws" does not say the draws are large
+                chi2["style"], chi2["target"] = "small", rng.randint(1500, 2400)
             clients.append("sharer")
             max_steps = rng.randint(8, 24)
         return {"ctrl_edits": rng.chance(0.4), "stale_attrs": rng.chance(0.35), "faults_on": faults_on, "prng_mode": prng_mode, "world": world, "ops": ops, "bops": bops, "clients": clients,
@@ -572,7 +575,7 @@ class C19(Sim):
         ch = cfg.get("chi2")
         need = 0
         if ch:
-            need = max(0, -(-(ch["target"] - self.share_total) // 1200))
+            need = max(0, -(-(ch["target"] - self.share_total) // (1200 if ch.get("style") != "small" else 250)))
             i = names.index("sharer")
             if need == 0:
                 names.pop(i)
@@ -589,6 +592,14 @@ class C19(Sim):
         else:
             c = self.pick_client(rng, names, weights, cfg["burst"])
         r = self.client_rng(c)
+        if c == "sharer" and ch.get("style") == "small":
+            n = r.choice([1, 1, 2, 3])
+            rep = min(r.randint(250, 400), (MAX_DRAWS - self.draws) // n)
+            if rep <= 0:
+                return None
+            if ch["kind"] == "polyline":
+                return {"c": c, "op": "polyline", "w": ch["w"], "n": n, "pc": False, "repeat": rep}
+            return {"c": c, "op": "surface", "w": ch["w"], "n": n, "pc": False, "normals": False, "repeat": rep}
         if c == "sharer":
             n = min(r.randint(1200, 2000), MAX_DRAWS - self.draws)
             if n <= 0:
@@ -1223,6 +1234,12 @@ class C19(Sim):
         if ev["c"] == "noise":
             return self._do_noise(ev)
         self._returned = []
+        if ev.get("repeat"):
+            # the same small request, many times in a row (one event: one PRNG stream in per_call mode, so the calls are independent draws)
+            self.probes["many_small_draws"] += 1
+            one = {k_: v_ for k_, v_ in ev.items() if k_ != "repeat"}
+            for _ in range(int(ev["repeat"]) - 1):
+                getattr(self, "_do_" + op)(one)
         res = getattr(self, "_do_" + op)(ev)
         if ev.get("scribble") and self._returned:
             self._scribble()
@@ -1254,7 +1271,7 @@ class C19(Sim):
         """history oracle: 'over many draws the share of samples per edge/face follows length/area' - at most one
         chi-square test per run, over all draws made on the designated non-degenerate world"""
         ch = self.cfg.get("chi2")
-        if not ch or self.share_total < CHI2_MIN_DRAWS:
+        if not ch or self.share_total < (CHI2_MIN_DRAWS if ch.get("style") != "small" else 1200):
             return
         if ch["kind"] == "polyline":
             weights = [float(x) for x in self.segs[ch["w"]].length]
